@@ -61,6 +61,48 @@ class ListObj(SyncObj):
         raise ValueError('boom %r' % (sid,))
 
 
+class VOld(SyncObj):
+    """'Old code': put exists in version 0 only."""
+
+    def __init__(self, selfNode, others, conf, transport, consumers=None):
+        super(VOld, self).__init__(selfNode, others, conf, consumers=consumers, transport=transport)
+        self.applied = []
+
+    @replicated
+    def put(self, sid):
+        pos = self.raftLastApplied + 1
+        self.applied.append((pos, sid))
+        OBS.append(('apply', pos, sid, (), (('impl', 0),)))
+        return len(self.applied)
+
+
+class VNew(SyncObj):
+    """'New code': put in versions 0 and 1 (1 added with a higher version number)."""
+
+    def __init__(self, selfNode, others, conf, transport, consumers=None):
+        super(VNew, self).__init__(selfNode, others, conf, consumers=consumers, transport=transport)
+        self.applied = []
+
+    @replicated(ver=0)
+    def put(self, sid):
+        pos = self.raftLastApplied + 1
+        self.applied.append((pos, sid))
+        OBS.append(('apply', pos, sid, (), (('impl', 0),)))
+        return len(self.applied)
+
+    @replicated(ver=1)
+    def put(self, sid):
+        pos = self.raftLastApplied + 1
+        self.applied.append((pos, sid))
+        OBS.append(('apply', pos, sid, (), (('impl', 1),)))
+        return len(self.applied)
+
+
+def _vmixed(nid, cfg):
+    """last voter runs the old code, everybody else the new code"""
+    return VOld if nid == addr(cfg.n) else VNew
+
+
 class Recorder(object):
     """Picklable sink for user-visible callbacks of one node."""
 
@@ -378,7 +420,8 @@ def summarize(b):
                    so.raftCommitIndex, so.raftLastApplied, log, log[0][0] if log else None, log[-1][0] if log else None,
                    app, frozenset(n.id for n in so.otherNodes), frozenset(b.tr.connected),
                    frozenset(b.tr.ro_local), so.getCodeVersion(), so.selfNode is not None, so.isReady(),
-                   tuple(sorted(b.extra.items())) + (('quorum', bool(so.hasQuorum)),))
+                   tuple(sorted(b.extra.items())) + (('quorum', bool(so.hasQuorum)),
+                                                       ('selfver', so.getStatus()['self_code_version'])))
 
 
 def decode_cmd(cmd):
@@ -417,7 +460,7 @@ class Config(object):
     def __init__(self, n=3, observers=0, batch=True, batch_bytes=2 ** 16, chunk=2 ** 16, journal=None,
                  dyn=False, obj='list', period=0.01, tmin=0.04, tmax=0.05, fallback=1e9, wait_leader=True,
                  qsize=1000, min_entries=1000000, exact_time=False, fuse=False, members=None, conf_extra=None,
-                 consumers=None, use_fork=False, h_all=False, methods=(), free_restart=True, spare=0):
+                 consumers=None, use_fork=False, h_all=False, methods=(), free_restart=True, spare=0, versions=(0, 1, 2)):
         self.n = n
         self.observers = observers
         self.batch = batch
@@ -439,6 +482,7 @@ class Config(object):
         self.conf_extra = conf_extra or {}
         self.consumers = consumers
         self.use_fork = use_fork
+        self.versions = tuple(versions)
         self.spare = spare              # absent node ids that a membership change may add
         self.free_restart = free_restart   # restarts do not consume budget (kills do)
         self.methods = tuple(methods)   # extra replicated methods offered as submissions (besides put)
@@ -455,7 +499,7 @@ class Config(object):
         return {k: v for k, v in d.items() if v is not None and v != {} and k not in ('consumers',)}
 
 
-OBJ_CLASSES = {'list': ListObj}
+OBJ_CLASSES = {'list': ListObj, 'vold': VOld, 'vnew': VNew, 'vmixed': _vmixed}
 
 
 def make_conf(cfg, rec, nid):
@@ -488,7 +532,9 @@ def build_node(cfg, nid, members, vfs_obj=None, now=T0, kills=0, extra=None):
     vfs.activate(b.vfs)
     b.vfs.begin_step()
     conf = make_conf(cfg, b.rec, nid)
-    cls = OBJ_CLASSES[cfg.obj] if not callable(cfg.obj) else cfg.obj
+    cls = OBJ_CLASSES[cfg.obj]
+    if not isinstance(cls, type):
+        cls = cls(nid, cfg)
     is_obs = nid.startswith('o')
     consumers = cfg.consumers() if cfg.consumers else None
     b.so = cls(None if is_obs else nid, [m for m in members if m != nid], conf, b.tr, consumers=consumers)
@@ -819,6 +865,9 @@ class ClusterModel(object):
                 evs.append(('K', n))
             if bud['J'] > 0 and self.cfg.journal:
                 evs.append(('J', n))
+            if bud['V'] > 0:
+                for v in self.cfg.versions:
+                    evs.append(('V', n, v))
         for (a, b), q in w.links:
             evs.append(('D', a, b))
         alive = set(s.nid for s in sums if s.alive)
@@ -900,7 +949,7 @@ class ClusterModel(object):
         sa, sb = self.summary(w, a), self.summary(w, b)
         if not (sa.alive and sb.alive):
             return False
-        if len(sa.extra) > 1 and ('fresh', 1) in sa.extra or len(sb.extra) > 1 and ('fresh', 1) in sb.extra:
+        if len(sa.extra) > 2 and ('fresh', 1) in sa.extra or len(sb.extra) > 2 and ('fresh', 1) in sb.extra:
             return False
         if b in sa.connected or a in sb.connected or pair(a, b) in w.phys:
             return False
@@ -1024,6 +1073,9 @@ class ClusterModel(object):
         if kind == 'K':
             bud = self.spend(w, 'K') if len(ev) < 3 else w.budget
             return bud and self.node_step(w, ev[1], ('compact',), budget=bud, label=ev)
+        if kind == 'V':
+            bud = self.spend(w, 'V') if ev[-1] != 'free' else w.budget
+            return bud and self.node_step(w, ev[1], ('setver', ev[2], ('v', w.nsub)), budget=bud, nsub=w.nsub + 1, label=ev)
         if kind == 'J':   # one-second step (journal meta flush timer)
             b = self.spend(w, 'J') if len(ev) < 3 else w.budget
             return b and self.node_step(w, ev[1], ('tick', 1.0 + EPS), budget=b, label=ev)
